@@ -6,11 +6,13 @@ events: tuples ('stmt', node) | ('branch', test, bool) | ('enter', item_expr, wi
 import ast, itertools
 
 class Cfg:
+    BONUS = 0
+
     def __init__(self, may_raise, hierarchy, unroll=1, maxpaths=20000):
         self.may_raise = may_raise      # fn(node) -> list of exception class names that node may raise ('*' = any BaseException)
         self.h = hierarchy              # fn(cls, handler_cls) -> bool  (is subclass)
-        self.unroll = unroll
-        self.maxpaths = maxpaths
+        self.unroll = unroll + Cfg.BONUS   # the thorough tier explores every loop one iteration deeper
+        self.maxpaths = maxpaths * (8 if Cfg.BONUS else 1)
 
     # ---- helpers
     def seq(self, stmts):
